@@ -81,6 +81,8 @@ def one(ctx, cname, label, route, pre):
             obj.x = v
         elif route == "trait_set":
             obj.trait_set(x=v)
+        elif route == "trait_setq":
+            obj.trait_setq(x=v)
         else:
             obj = cls(x=v)
     except BaseException as e:
@@ -187,6 +189,10 @@ def plan(cname, tier):
         if tier == "thorough" or label in SUB:
             out.append((label, "ctor", "fresh"))
             out.append((label, "trait_set", "fresh"))
+            if c.shadow is not None or tier == "thorough":
+                out.append((label, "trait_setq", "fresh"))
+                if c.good is not None:
+                    out.append((label, "trait_setq", "stored"))
             if tier == "thorough" and c.good is not None:
                 out.append((label, "trait_set", "stored"))
     return out
